@@ -48,9 +48,10 @@ import (
 // ---------------------------------------------------------------- case format (BulkIngest!Emit)
 
 type TmField struct {
-	K   string `json:"k"`
-	Off int    `json:"off"`
-	Fmt string `json:"fmt"`
+	K    string   `json:"k"`
+	Off  int      `json:"off"`
+	Fmt  string   `json:"fmt"`
+	Text []string `json:"text"` // k = "stamp": the value, character by character, as the specification rendered it
 }
 
 type Line struct {
@@ -61,10 +62,18 @@ type Line struct {
 }
 
 type ExpDoc struct {
-	I   int    `json:"i"`
-	Tv  string `json:"tv"`
-	Fld int    `json:"fld"`
-	Off int    `json:"off"`
+	I   int     `json:"i"`
+	Tv  string  `json:"tv"`
+	Fld int     `json:"fld"`
+	Off int     `json:"off"`
+	Abs []int64 `json:"abs"` // own time of a stamp: day number since 1970-01-01 and millisecond of that day (UTC)
+}
+
+// Clock of the stamp stage: the expectations hold for a tick of TickDays days and any `now` in [NowLo, NowHi] (day numbers)
+type Clock struct {
+	TickDays int   `json:"tickdays"`
+	NowLo    int64 `json:"nowlo"`
+	NowHi    int64 `json:"nowhi"`
 }
 
 type Outcome struct {
@@ -82,6 +91,7 @@ type Case struct {
 	Allowed []Outcome `json:"allowed"`
 	Impl    Outcome   `json:"impl"`
 	Dev     []int     `json:"dev"`
+	Clock   *Clock    `json:"clock"`
 	Idx     *int      `json:"_idx"` // replay: index used for the random stream
 }
 
@@ -463,6 +473,13 @@ func (g *gen) line(l Line, m int, tref time.Time) ([]byte, bool) {
 				tparts = append(tparts, `"`+timeNames[i]+`":`+g.timeValue(f, tref))
 			case "unp":
 				tparts = append(tparts, `"`+timeNames[i]+`":`+unparsable[g.r.IntN(len(unparsable))])
+			case "stamp":
+				// the specification's text, verbatim (its characters need no JSON escaping)
+				v := strings.Join(f.Text, "")
+				if g.r.IntN(20) == 0 {
+					v = strings.Replace(v, ":", `\u003a`, 1) // an escaped character: still the same JSON string value
+				}
+				tparts = append(tparts, `"`+timeNames[i]+`":"`+v+`"`)
 			default:
 				if r := l.Len % m; (l.Len > m || (r > 2 && r < m-2)) && g.r.IntN(4) == 0 {
 					tparts = append(tparts, `"`+timeNames[i]+`":""`)
@@ -765,12 +782,16 @@ func runCase(n int, c *Case, st *stats) map[string]any {
 		}
 		for j, e := range o.Docs {
 			mid := int64(main[j].ID.MID)
-			own := mid == tref.UnixMilli()+int64(e.Off)*tick.Milliseconds()
+			ownMid := tref.UnixMilli() + int64(e.Off)*tick.Milliseconds()
+			if len(e.Abs) == 2 {
+				ownMid = e.Abs[0]*86400000 + e.Abs[1]
+			}
+			own := mid == ownMid
 			recv := tb.UnixMilli() <= mid && mid <= ta.UnixMilli()
 			switch {
 			case e.Tv == "doc" && !own:
 				return fmt.Sprintf("ID of stored document %d (line %d) must carry its own %s (offset %d ticks): mid=%d own=%d request=[%d,%d]",
-					j+1, e.I, timeNames[e.Fld-1], e.Off, mid, tref.UnixMilli()+int64(e.Off)*tick.Milliseconds(), tb.UnixMilli(), ta.UnixMilli())
+					j+1, e.I, timeNames[e.Fld-1], e.Off, mid, ownMid, tb.UnixMilli(), ta.UnixMilli())
 			case e.Tv == "recv" && !recv:
 				return fmt.Sprintf("ID of stored document %d (line %d) must carry the receive time: mid=%d request=[%d,%d]",
 					j+1, e.I, mid, tb.UnixMilli(), ta.UnixMilli())
@@ -905,6 +926,18 @@ func main() {
 	if err := json.Unmarshal([]byte(raw[0]), &first); err != nil {
 		emit(map[string]any{"infra": "bad case " + err.Error()})
 		os.Exit(3)
+	}
+	if ck := first.Clock; ck != nil {
+		// the stamp stage decided its window for a tick of ck.TickDays days and a clock inside [NowLo, NowHi]
+		today := time.Now().Unix() / 86400
+		if tick != time.Duration(ck.TickDays)*24*time.Hour {
+			emit(map[string]any{"infra": fmt.Sprintf("stamp cases need -tick %d (one tick = %d days)", ck.TickDays*86400000, ck.TickDays)})
+			os.Exit(3)
+		}
+		if today < ck.NowLo || today > ck.NowHi {
+			emit(map[string]any{"infra": fmt.Sprintf("stamp cases were decided for a clock in days [%d,%d], today is %d: adjust NowLoDay/NowHiDay in BulkIngest.tla", ck.NowLo, ck.NowHi, today)})
+			os.Exit(3)
+		}
 	}
 	mp, err := mappingprovider.New("", mappingprovider.WithMapping(mapping))
 	if err != nil {
